@@ -129,7 +129,9 @@ pub fn worker(ctx: &WorkerCtx) -> WorkerResult {
         if r.violations.is_empty() {
             r.merge(crash::worker(ctx, "C11", 96, 2000));
         }
-        return r;
+        let res = std::cell::RefCell::new(r);
+        fault::worker_dircheck(ctx, &res);
+        return res.into_inner();
     }
     if HISTORY_IDS.contains(&ctx.id.as_str()) {
         return history::worker(ctx);
